@@ -254,6 +254,37 @@ func inner(toks []xml.Token) ([]xml.Token, error) {
 	return toks[1 : len(toks)-1], nil
 }
 
+// appTokens returns the tokens of an application-specific condition [space, local] of an error whose
+// own namespace is own (tla/Stanza.tla): nil for NoApp, the payload P_text for the ordinary name
+// urn:vt:payload x; any other name is an element with an attribute, character data and a nested
+// <text/> child in the error's OWN namespace (fresh each call).
+func appTokens(app Rec, own string) []xml.Token {
+	space, local := str(app["space"]), str(app["local"])
+	switch {
+	case local == "":
+		return nil
+	case space == nsVT && local == "x":
+		return payloadTokens("P_text")
+	}
+	n := xml.Name{Space: space, Local: local}
+	t := xml.Name{Space: own, Local: "text"}
+	return []xml.Token{
+		xml.StartElement{Name: n, Attr: []xml.Attr{{Name: xml.Name{Local: "a"}, Value: S("S_xml")}}},
+		xml.CharData(S("S_xml") + S("S_uni")),
+		xml.StartElement{Name: t, Attr: []xml.Attr{{Name: xml.Name{Space: "http://www.w3.org/XML/1998/namespace", Local: "lang"}, Value: "en"}}},
+		xml.CharData(S("S_a")),
+		xml.EndElement{Name: t},
+		xml.EndElement{Name: n}}
+}
+
+func appReader(app Rec, own string) xml.TokenReader {
+	t := appTokens(app, own)
+	if t == nil {
+		return nil
+	}
+	return replay(t)
+}
+
 func payloadReader(symb string) xml.TokenReader {
 	t := payloadTokens(symb)
 	if t == nil {
@@ -388,9 +419,9 @@ func runStanzaError(v Rec, o *Obs) {
 		Proj:  func(p interface{}) Rec { return projStanzaError(*p.(*stanza.Error)) },
 	}
 	stdRun(s)(v, o)
-	// with an application-specific condition element (Wrap)
+	// with the application-specific condition element of the value (Wrap)
 	e := buildStanzaError(v)
-	if toks := o.encTokens("wrapapp", func() xml.TokenReader { return e.Wrap(payloadReader("P_text")) }); toks != nil {
+	if toks := o.encTokens("wrapapp", func() xml.TokenReader { return e.Wrap(appReader(rec(v["app"]), stanza.NSError)) }); toks != nil {
 		o.dec("wrapapp/decode", "norm", func() (Rec, error) {
 			var x stanza.Error
 			err := xml.NewTokenDecoder(replay(toks)).Decode(&x)
@@ -420,9 +451,9 @@ func buildStreamError(v Rec) stream.Error {
 			Value string
 		}{Lang: S(rec(p)["lang"]), Value: S(rec(p)["text"])})
 	}
-	if boolean(v["app"]) {
+	if r := appReader(rec(v["app"]), stream.NSError); r != nil {
 		// the payload reader is consumed by one encoding: build a fresh value per path
-		e = e.ApplicationError(payloadReader("P_text"))
+		e = e.ApplicationError(r)
 	}
 	return e
 }
